@@ -127,6 +127,7 @@ func (v *Verifier) selectTargets(prop string) (fns []*ssa.Function, cons []*Cont
 
 func runCheck(prop string, thorough bool, timeout time.Duration, useCache bool) (*checkOutcome, error) {
 	out := &checkOutcome{}
+	checkedProperty = prop
 	t0 := time.Now()
 	pkgProps, err := contractPackages(repoDir)
 	if err != nil {
